@@ -332,7 +332,33 @@ def r8_sibling_registrars(ctx):
     sibling_param_agreement(ctx, "C04.R8", (("register_subscription", M % "register_subscription"), ("register_subscription_raw", M % "register_subscription_raw")), 3)
 
 
-RULES = [r1_typestate, r2_closed_check_first, r3_identity, r4_close_gating, r5_unsubscribe_key, r6_single_writer, r7_envelope_is_fresh, r8_sibling_registrars]
+
+def rflag_success_flag_matches_json(ctx):
+    """is_success() agrees with what was serialised (error replacements are flagged Failed)"""
+    from .common import response_flag_matches_json
+    response_flag_matches_json(ctx, "C04.FLAG")
+
+
+def r9_low_level_connection_is_driven_by_its_future(ctx):
+    """`ws::connect` documents that the connection lives as long as the future it returns is polled: dropping that future
+    is how an application closes a connection from the server side (and makes its sinks report closed). So in ws::connect
+    the connection task (background_task) is awaited inside the returned future, never handed to tokio::spawn."""
+    F, R = ctx.F, ctx.R
+    bodies = []
+    for b in F.find(r"^jsonrpsee_server::transport::ws::connect$"):
+        bodies += F.nested(b)
+    calls = [(x, c) for x in bodies for c in x.calls_to(r"transport::ws::background_task$")]
+    if not calls:
+        raise AnchorLost("background_task call in ws::connect")
+    for x, c in calls:
+        R.fn(x)
+        holders = follow_value(x, c.dest["l"])
+        spawned = [s for s in x.calls_to(r"^tokio::(task::)?spawn$|Handle::spawn$|JoinSet::<.*>::spawn$") if s.args and op_place(s.args[-1]) is not None and op_place(s.args[-1])["l"] in holders]
+        awaited = [a for a in x.calls_to(r"IntoFuture::into_future$") if op_place(a.args[0]) is not None and op_place(a.args[0])["l"] in holders]
+        R.check(bool(awaited) and not spawned, "C04.R9", "ws::connect:connection-awaited-inline", "the connection task is awaited inside the future returned by ws::connect", "ws::connect hands the connection task to %s instead of awaiting it inside the returned future: dropping that future no longer ends the connection, so after a server-side disconnect the sink never reports closed and notifications keep being delivered" % (sorted({short(s.name()) for s in spawned}) or "something else"), where(c))
+
+
+RULES = [r1_typestate, r2_closed_check_first, r3_identity, r4_close_gating, r5_unsubscribe_key, r6_single_writer, r7_envelope_is_fresh, r8_sibling_registrars, r9_low_level_connection_is_driven_by_its_future, rflag_success_flag_matches_json]
 
 LEVEL_TEXT = (
     "Structural necessary conditions of the subscription notification contract decided from the type-checked program: "
